@@ -22,6 +22,13 @@ func vTextResults(n int, pfx string) []TextResult {
 func H_C19_limit() {
 	n := vChoose("n", 6)
 	rs := vTextResults(n, "r")
+	if spare := vChoose("spare_capacity", 3); spare > 0 {
+		// a slice with room behind its length (built by append, or a filtered prefix): the length decides, never the capacity
+		big := make([]TextResult, n, n+spare)
+		copy(big, rs)
+		rs = big
+		vCover("spare-capacity")
+	}
 	k := vInt("k")
 	out := LimitResults(rs, k)
 	want := n
@@ -44,6 +51,11 @@ func H_C19_limit() {
 func H_C19_autocut() {
 	n := vChoose("n", 6)
 	rs := vTextResults(n, "r")
+	if vChoose("spare_capacity", 2) == 1 {
+		big := make([]TextResult, n, n+2)
+		copy(big, rs)
+		rs = big
+	}
 	cutoff := vInt("cutoff")
 	scores := make([]float32, n)
 	for i := range rs {
@@ -473,4 +485,148 @@ func H_C19_merge() {
 		vAssert(!(cp[i].Score > cp[i-1].Score), "sort-descending")
 	}
 	vCover("nonempty")
+}
+
+func init() {
+	vHarnesses["H_C19_merge_large"] = H_C19_merge_large
+	vHarnesses["H_C19_agg_large"] = H_C19_agg_large
+}
+
+// mergeResults above the size where sort.Slice stops being a stable insertion sort (12): 3 sources x 5..7
+// documents, ids repeated across the sources, concrete scores except two symbolic ones
+func H_C19_merge_large() {
+	per := 5 + vChoose("per_source", 3)
+	var in []HybridSearchResult
+	for src := 0; src < 3; src++ {
+		for d := 0; d < per; d++ {
+			// the same document scores differently in every source; which source holds the best one varies with d
+			sc := float64((d*7+src*5)%11) + float64((src+d)%3)*0.25
+			in = append(in, HybridSearchResult{ID: uint32(100 + d), Score: sc})
+		}
+	}
+	a, b := vChoose("sym_a", len(in)), vChoose("sym_b", 3)
+	in[a].Score = vF64("sa")
+	in[(a+per*(1+b%2)+b)%len(in)].Score = vF64("sb")
+	for _, r := range in {
+		vAssume(r.Score == r.Score)
+	}
+	cp := append([]HybridSearchResult(nil), in...)
+	out := mergeResults(in)
+	for i := range in {
+		vAssert(in[i].ID == cp[i].ID && vSameF64(in[i].Score, cp[i].Score), "merge-input-untouched")
+	}
+	vAssert(len(out) == per, "merge-each-id-once-count")
+	for d := 0; d < per; d++ {
+		id := uint32(100 + d)
+		cnt := 0
+		for _, r := range out {
+			if r.ID == id {
+				cnt++
+				attained := false
+				for _, x := range in {
+					if x.ID == id {
+						vAssert(!(x.Score > r.Score), "merge-highest")
+						attained = vOr(attained, r.Score == x.Score)
+					}
+				}
+				vAssert(attained, "merge-attained")
+			}
+		}
+		vAssert(cnt == 1, "merge-each-id-once")
+	}
+	sortResultsByScore(out)
+	for i := 1; i < len(out); i++ {
+		vAssert(!(out[i].Score > out[i-1].Score), "sort-descending")
+	}
+	vCover("ran")
+}
+
+// aggregation above 12 entries: two or three per-query lists of 7 hits each (each list sorted, as the searches produce
+// them), overlapping or disjoint id ranges, one symbolic score: each id once, the rule's value, best-first order
+func H_C19_agg_large() {
+	kind := []ScoreAggregationKind{SumAggregation, MaxAggregation, MeanAggregation}[vChoose("kind", 3)]
+	lists := 2 + vChoose("lists", 2)
+	shift := []int{0, 3, 7}[vChoose("overlap", 3)] // id offset between consecutive lists: identical / overlapping / disjoint
+	sym := vF32("s")
+	vAssume(vAnd(sym >= 0, sym <= 64))
+	symAt := vChoose("sym_at", 3)
+	type ent struct {
+		id uint32
+		sc float32
+	}
+	var all []ent
+	for l := 0; l < lists; l++ {
+		for j := 0; j < 7; j++ {
+			sc := float32(j*3+l) + float32((l*5+j)%4)*0.125
+			if l == 1 && j == symAt*3 {
+				sc = sym
+			}
+			all = append(all, ent{uint32(10 + l*shift + j), sc})
+		}
+	}
+	vec := vChoose("modality", 2) == 0
+	want := func(id uint32) (float32, int) {
+		var sum, mx float32
+		cnt := 0
+		for _, e := range all {
+			if e.id == id {
+				if cnt == 0 || e.sc > mx { // "max" is the numerically largest score in both modalities
+					mx = e.sc
+				}
+				sum += e.sc
+				cnt++
+			}
+		}
+		switch kind {
+		case SumAggregation:
+			return sum, cnt
+		case MaxAggregation:
+			return mx, cnt
+		}
+		return sum / float32(cnt), cnt
+	}
+	distinct := map[uint32]bool{}
+	for _, e := range all {
+		distinct[e.id] = true
+	}
+	if vec {
+		in := make([]VectorResult, len(all))
+		for i, e := range all {
+			in[i] = VectorResult{Node: *NewVectorNodeWithID(e.id, nil), Score: e.sc}
+		}
+		agg, _ := NewVectorAggregation(kind)
+		out := agg.Aggregate(in)
+		vAssert(len(out) == len(distinct), "agg-each-id-once-count")
+		for i, r := range out {
+			w, c := want(r.GetId())
+			vAssert(c > 0, "agg-known-id")
+			vAssert(vSameF32(r.Score, w), "agg-value")
+			for j := 0; j < i; j++ {
+				vAssert(out[j].GetId() != r.GetId(), "agg-each-id-once")
+			}
+			if i > 0 {
+				vAssert(!(r.Score < out[i-1].Score), "agg-best-first")
+			}
+		}
+	} else {
+		in := make([]TextResult, len(all))
+		for i, e := range all {
+			in[i] = TextResult{Id: e.id, Score: e.sc}
+		}
+		agg, _ := NewTextAggregation(kind)
+		out := agg.Aggregate(in)
+		vAssert(len(out) == len(distinct), "agg-each-id-once-count")
+		for i, r := range out {
+			w, c := want(r.GetId())
+			vAssert(c > 0, "agg-known-id")
+			vAssert(vSameF32(r.Score, w), "agg-value")
+			for j := 0; j < i; j++ {
+				vAssert(out[j].GetId() != r.GetId(), "agg-each-id-once")
+			}
+			if i > 0 {
+				vAssert(!(r.Score > out[i-1].Score), "agg-best-first")
+			}
+		}
+	}
+	vCover("ran")
 }
